@@ -240,8 +240,8 @@ func (r *runner) request(op Op, verdicts map[string]int) *http.Request {
 
 // modelAllows: ∃ alternative all of whose schemes satisfy ok.
 func modelAllows(reqs [][]Req, ok func(scheme string) bool) bool {
-	if reqs == nil {
-		return true
+	if len(reqs) == 0 {
+		return true // no requirement at all (absent, or the explicit empty list "security: []")
 	}
 	for _, alt := range reqs {
 		all := true
